@@ -31,6 +31,7 @@ type Config struct {
 	TimeoutMs     int
 	SchedChoice   bool
 	MapOrderChoice bool
+	RaceMode      bool // record an event skeleton and run the order-variable race analysis on completed paths
 	HashIDs       bool // meow on symbolic input: concrete identifiers decided by forking on input equality
 	MaxConcretize int
 	AllocBudget   int64 // bytes; 0 = no allocation check
@@ -393,6 +394,9 @@ func runOne(mainpkg *ssa.Package, sizes types.Sizes, fnName string, cfg *Config,
 		tmpl:       tmpl,
 	}
 	i.sc.schedChoice = cfg.SchedChoice
+	if cfg.RaceMode {
+		i.evlog = newEventLog()
+	}
 	s.beginPath(prefix)
 	runtimePkg := i.prog.ImportedPackage("runtime")
 	i.runtimeErrorString = runtimePkg.Type("errorString").Object().Type()
@@ -436,6 +440,14 @@ func runOne(mainpkg *ssa.Package, sizes types.Sizes, fnName string, cfg *Config,
 	i.steps = 0
 	call(i, nil, token.NoPos, mainpkg.Func(fnName), nil)
 	pr.kind, pr.outcome = "ok", "ok"
+	if i.evlog != nil && s.vector == nil {
+		for _, r := range i.analyzeRaces() {
+			i.reportViolation("race", "race: "+r, nil)
+		}
+		if i.raceStats != "" {
+			i.ps.reached = append(i.ps.reached, "race-analysis: "+i.raceStats)
+		}
+	}
 	if s.vector == nil && s.symDecisions > 0 && s.needModelNoPanic() {
 		pr.model = s.namedModel(s.model)
 	} else if s.vector != nil {
